@@ -388,6 +388,37 @@ def run(ctx):
                 gen_names.add(q2.split(".")[-1])
     ONE_SHOT_BUILTINS = {"chain", "itertools.chain", "map", "filter", "iter", "zip", "reversed", "enumerate"}
     nsite = 0
+
+    def _one_shot_sources(target_name, params, p_, depth=0):
+        """[(module, call, argument expr)] for one-shot iterators that reach parameter p_ of the method called `target_name` (followed through forwarding fronts)."""
+        nonlocal nsite
+        out = []
+        for mod2, c in repo.all_calls(lambda c: last_attr(c) == target_name):
+            if mod2.rel.startswith("redun/tests"):
+                continue
+            i = params.index(p_) - 1
+            a = c.args[i] if 0 <= i < len(c.args) and not any(isinstance(x, ast.Starred) for x in c.args[: i + 1]) else next((k.value for k in c.keywords if k.arg == p_), None)
+            if a is None:
+                continue
+            nsite += 1
+            encl = mod2.enclosing_func(c)
+            if isinstance(a, ast.Name) and encl is not None:
+                eparams = [x.arg for x in encl.args.args]
+                if a.id in eparams and depth < 2:
+                    ann = next((x.annotation for x in encl.args.args if x.arg == a.id), None)
+                    reassigned = any(isinstance(x, ast.Assign) and any(isinstance(t, ast.Name) and t.id == a.id for t in x.targets) for x in ast.walk(encl))
+                    if ann is not None and ("Iterable" in src(ann) or "Iterator" in src(ann)) and not reassigned:
+                        # a front that forwards its own Iterable parameter: what its callers pass is what arrives
+                        out += _one_shot_sources(encl.name, eparams, a.id, depth + 1)
+                        continue
+                adefs = [x.value for x in ast.walk(encl) if isinstance(x, ast.Assign) and any(isinstance(t, ast.Name) and t.id == a.id for t in x.targets)]
+                if len(adefs) == 1:
+                    a = adefs[0]
+            one_shot = isinstance(a, ast.GeneratorExp) or (isinstance(a, ast.Call) and ((call_name(a) or "") in ONE_SHOT_BUILTINS or (last_attr(a) or call_name(a) or "").split(".")[-1] in gen_names))
+            if one_shot:
+                out.append((mod2, c, a))
+        return out
+
     for name, fn in sorted(retried.items()):
         params = [a.arg for a in fn.args.args]
         iter_params = [a.arg for a in fn.args.args if a.annotation is not None and ("Iterable" in src(a.annotation) or "Iterator" in src(a.annotation))]
@@ -395,25 +426,14 @@ def run(ctx):
             continue
         if any(isinstance(x, (ast.Yield, ast.YieldFrom)) and db.enclosing_func(x) is fn for x in ast.walk(fn)):
             continue  # a generator function: calling it runs nothing, so the wrapper never has anything to retry (ineffective, not lossy)
-        for mod2, c in repo.all_calls(lambda c: last_attr(c) == name):
-            if mod2.rel.startswith("redun/tests"):
-                continue
-            for p_ in iter_params:
-                i = params.index(p_) - 1
-                a = c.args[i] if 0 <= i < len(c.args) and not any(isinstance(x, ast.Starred) for x in c.args[: i + 1]) else next((k.value for k in c.keywords if k.arg == p_), None)
-                if a is None:
-                    continue
-                nsite += 1
-                if isinstance(a, ast.Name):
-                    encl = mod2.enclosing_func(c)
-                    adefs = [x.value for x in ast.walk(encl) if isinstance(x, ast.Assign) and any(isinstance(t, ast.Name) and t.id == a.id for t in x.targets)] if encl is not None else []
-                    if len(adefs) == 1:
-                        a = adefs[0]
-                one_shot = isinstance(a, ast.GeneratorExp) or (isinstance(a, ast.Call) and ((call_name(a) or "") in ONE_SHOT_BUILTINS or (last_attr(a) or call_name(a) or "").split(".")[-1] in gen_names))
-                r8.check(
-                    not one_shot,
-                    f"{mod2.rel}:{mod2.enclosing_qual(c)}:{name}({p_}=one-shot)",
-                    f"{mod2.enclosing_qual(c)} passes `{src(a)[:60]}` (a one-shot iterator) as `{p_}` to the @db_retry method {name}: if the first attempt hits a transient OperationalError the wrapper rolls "
+        for p_ in iter_params:
+            bad = _one_shot_sources(name, params, p_)
+            if not bad:
+                r8.good(f"{db.rel}:RedunBackendDb.{name}:{p_}", "every in-repo caller passes a re-iterable")
+            for mod2, c, a in bad:
+                r8.violation(
+                    f"{mod2.rel}:{mod2.enclosing_qual(c)}:{last_attr(c)}({p_}=one-shot)",
+                    f"{mod2.enclosing_qual(c)} passes `{src(a)[:60]}` (a one-shot iterator), which reaches `{p_}` of the @db_retry method {name}: if the first attempt hits a transient OperationalError the wrapper rolls "
                     "back and calls the method again with the exhausted iterator -- it then writes nothing and returns normally (e.g. `redun push` reports success with 0 records written)",
                     mod2.rel,
                     c.lineno,
